@@ -138,6 +138,7 @@ class DepWorld(RecvWorld):
             "_asynccontextmanager": asynccontextmanager,
             "Context": Context,
             "_DEP": TaskiqDepends,
+            "_Any": Any,
             "__name__": "mc.dep_world_generated",
         }
         nodes = deps["nodes"]
@@ -172,13 +173,19 @@ class DepWorld(RecvWorld):
         tparams = ", ".join(f"{r}=_DEP({r}, use_cache={bool(nodes[r].get('cache', True))})" for r in deps["roots"])
         extra = ", ctx: Context = _DEP()" if deps.get("task_ctx") else ""
         tsrc = f"""
-async def t_dep(i, {tparams}{extra}):
+async def t_dep(i, v: _Any = None, {tparams}{extra}):
+    _W.dep_arg(i, v)
     return await _W.dep_task_body(i, ({''.join(r + ', ' for r in deps['roots'])}){', ctx' if deps.get('task_ctx') else ''})
 """
         exec(tsrc, ns)  # noqa: S102
         ns["t_dep"].__module__ = "mc.dep_world_generated"
         self._NoResultError = NoResultError
         broker.register_task(ns["t_dep"], task_name="t_dep")
+
+    def dep_arg(self, i: int, v: Any) -> None:
+        """The keyword argument `v: Any` of the task as the function received it (scenario key msgs[i]['kw'])."""
+        if "kw" in self.msgs[i]:
+            self.emit("ARGV", i, repr(v), type(v).__name__)
 
     async def dep_task_body(self, i: int, root_vals: Any, ctx: Any = None) -> Any:
         self.emit("START", i)
